@@ -66,7 +66,6 @@ type StepInfo struct {
 // channel cells: 0 closed, 1 len, 2 cap, 3.. slots
 func (m *Machine) NewChan(it *Item, elem types.Type, size T, site string) *Object {
 	c := m.C
-	m.nextObj++
 	slots := m.ChanSlots
 	if k, ok := size.Int64(); ok {
 		slots = int(k)
@@ -78,14 +77,11 @@ func (m *Machine) NewChan(it *Item, elem types.Type, size T, site string) *Objec
 	} else if it != nil {
 		m.Oblige("bound", "channel capacity exceeds modelled slots", c.And(it.G, m.slt(m.IntC(int64(slots)), size)), m.posOf(it))
 	}
-	o := &Object{ID: m.nextObj, Kind: KChan, Site: site, T: elem, Cap: slots}
 	cells := []Value{c.False, m.IntC(0), size}
 	for i := 0; i < slots; i++ {
 		cells = append(cells, m.ZeroValue(elem))
 	}
-	m.heap.Init(o, cells)
-	m.NObjects++
-	return o
+	return m.canonObject(Object{Kind: KChan, Site: site, T: elem, Cap: slots}, cells)
 }
 
 func (m *Machine) newGor(name string, spawn T) *Gor {
@@ -135,7 +131,7 @@ func (m *Machine) doGo(it *Item, x *ssa.Go) {
 	for _, a := range cc.Args {
 		args = append(args, m.val(f, a))
 	}
-	spawnKey := fmt.Sprintf("%d|%s|%d", it.Gor.ID, keyString(it.F.key()), m.step)
+	spawnKey := m.eventKey("go")
 	start := func(fn *ssa.Function, binds []Value, full []Value, guard T, tag string) {
 		key := spawnKey + "|" + tag
 		g, ok := m.spawned[key]
@@ -465,7 +461,7 @@ func (m *Machine) enumerate() []*Cand {
 // ---- completing operations
 
 func (m *Machine) advance(e endpoint, sel T) *Item {
-	ni := &Item{G: sel, F: copyFrame(e.it.F), Gor: e.it.Gor}
+	ni := &Item{G: sel, F: copyFrame(e.it.F), Gor: e.it.Gor, Clock: e.it.Clock + 1}
 	return ni
 }
 
@@ -650,6 +646,7 @@ func (m *Machine) Run(fn *ssa.Function) (err error) {
 	m.parkSuspended()
 	for m.step = 1; m.step <= m.MaxSteps; m.step++ {
 		cands := m.enumerate()
+		nEnum := len(cands)
 		if !m.NoPrune && m.Feasible != nil {
 			var live []*Cand
 			for _, cd := range cands {
@@ -658,6 +655,24 @@ func (m *Machine) Run(fn *ssa.Function) (err error) {
 				}
 			}
 			cands = live
+		}
+		if m.Progress != nil {
+			nalts := 0
+			for _, g := range m.gors {
+				nalts += len(g.Alts)
+			}
+			m.Progress(m.step, nEnum, len(cands), nalts, len(m.gors))
+			if m.Trace2 {
+				for _, g := range m.gors {
+					if len(g.Alts) > 0 {
+						var ks []string
+						for _, it := range m.sortedAlts(g) {
+							ks = append(ks, shortPos(m.posOf(it)))
+						}
+						fmt.Printf("      g%d %s: %v\n", g.ID, g.Name, ks)
+					}
+				}
+			}
 		}
 		if len(cands) == 0 {
 			break
@@ -668,14 +683,19 @@ func (m *Machine) Run(fn *ssa.Function) (err error) {
 		}
 		anyEn := c.Or(ens...)
 		info := StepInfo{Step: m.step, NCands: len(cands)}
-		if m.Deterministic || len(cands) == 1 {
+		m.orderCands(cands)
+		symbolic := !m.Deterministic
+		if m.SymTo > 0 {
+			symbolic = m.step >= m.SymFrom && m.step < m.SymTo
+		}
+		if !symbolic || len(cands) == 1 {
 			var prev []T
 			for _, cd := range cands {
 				cd.Sel = c.And(cd.En, c.Not(c.Or(prev...)))
 				prev = append(prev, cd.En)
 			}
 		} else {
-			ch := c.Fresh(fmt.Sprintf("sched%d", m.step), m.intSort())
+			ch := c.Var(fmt.Sprintf("sched%d", m.step), m.intSort())
 			info.Choice = ch
 			var sels []T
 			for i, cd := range cands {
@@ -743,7 +763,7 @@ func (m *Machine) parkSuspended() {
 			continue
 		}
 		it.F = zeroIters(it.F)
-		k := keyString(it.F.key())
+		k := keyString(append([]int32{int32(it.Clock)}, it.F.key()...))
 		if old, ok := it.Gor.Alts[k]; ok {
 			it.Gor.Alts[k] = m.mergeItems(old, it)
 		} else {
@@ -818,3 +838,48 @@ func (m *Machine) LiveGoroutines() []*Gor {
 }
 
 var _ = sym.SBool
+
+// orderCands sorts candidates by the baseline scheduling policy (the priority used by deterministic steps).
+func (m *Machine) orderCands(cands []*Cand) {
+	rank := func(g *Gor) int {
+		if g == nil {
+			return 1 << 30
+		}
+		env := g.Env || strings.HasPrefix(g.Name, "vm") || strings.HasPrefix(g.Name, "v")
+		switch m.Policy {
+		case "rev":
+			return -g.ID
+		case "env-first":
+			if env {
+				return g.ID - 1000
+			}
+			return g.ID
+		case "env-last":
+			if env {
+				return g.ID + 1000
+			}
+			return g.ID
+		case "main-last":
+			if g == m.MainGor {
+				return 1 << 20
+			}
+			return g.ID
+		case "main-first":
+			if g == m.MainGor {
+				return -1
+			}
+			return g.ID
+		}
+		return g.ID
+	}
+	pr := func(cd *Cand) int {
+		r := rank(cd.A.it.Gor)
+		if cd.B.it != nil {
+			if r2 := rank(cd.B.it.Gor); r2 < r {
+				r = r2
+			}
+		}
+		return r
+	}
+	sort.SliceStable(cands, func(i, j int) bool { return pr(cands[i]) < pr(cands[j]) })
+}
